@@ -421,7 +421,7 @@ func build(min root, path []op) (w *world, key string, desc string) {
 }
 
 // enabled lists the steps out of a state. ext is the alphabet of the second pass from the empty roots: priorities
-// {0,1,-0.0} (thorough: {0,1,2,-0.0}) - negative zero is a legal priority equal to zero - and the compound steps (a pop or
+// {0,1,-0.0} - negative zero is a legal priority equal to zero - and the compound steps (a pop or
 // push immediately followed by Reverse, nothing observed in between). Both on top of the plain alphabet multiply the
 // state count by ten, hence a pass of its own with its own seen set.
 func enabled(w *world, maxQueues, maxLen int, ext bool, thorough bool) []op {
@@ -429,9 +429,6 @@ func enabled(w *world, maxQueues, maxLen int, ext bool, thorough bool) []op {
 	prios := []int{0, 1, 2, 3}
 	if ext {
 		prios = []int{0, 1, 4}
-		if thorough {
-			prios = []int{0, 1, 2, 4}
-		}
 	}
 	for q := range w.qs {
 		if len(w.refs[q]) < maxLen {
@@ -490,6 +487,9 @@ func main() {
 		}
 		seen := seenBy[[2]bool{min.Min, min.Ext}]
 		rootDepth := depth
+		if min.Ext && run.Thorough() {
+			rootDepth = depth - 1 // 7 alternatives per queue instead of 6: one level less keeps the pass within the hour
+		}
 		if len(min.Init) > 0 {
 			rootDepth = depth - 2 // constructor-seeded roots merge quickly with states already seen
 		}
@@ -556,7 +556,7 @@ func main() {
 	transitions += large
 	run.Assumptions = []string{
 		"directed part: min and max queues grown to 1100 / 2600 / 4200 items (priorities 0..39 with ties), drained below an eighth, reversed, refilled and drained, every pop and the following Peek checked",
-		"priorities from {0,1,2,3} (ties included); a second pass from the empty roots with priorities {0,1,-0.0} (thorough {0,1,2,-0.0}; negative zero is a legal priority equal to zero) and pop-then-reverse / push-then-reverse as single steps without an observation in between; at most " + fmt.Sprint(maxLen) + " items per queue and " + fmt.Sprint(maxQ) + " live queues",
+		"priorities from {0,1,2,3} (ties included); a second pass from the empty roots with priorities {0,1,-0.0} (one level less deep in the thorough tier; negative zero is a legal priority equal to zero) and pop-then-reverse / push-then-reverse as single steps without an observation in between; at most " + fmt.Sprint(maxLen) + " items per queue and " + fmt.Sprint(maxQ) + " live queues",
 		"Values/Peek/Len/ToSlice are observations made after every step on every live queue (Values first); every reached state is additionally drained by pops and, on another copy, through ToIterator",
 	}
 	run.Finish(ev.Coverage{
